@@ -7,6 +7,14 @@ CLAIMED = {
    text="TLC exhaustively checks the MerkleTree object spec (Merkle.tla: push/compute_root/get_paths/reset with retained levels) against the tree definition (Complete, MatchesDefinition, Binding, ResetClean) for bounded batches on a reused object; every batch-completing behaviour is replayed on the real MerkleTree (root and every path compared with the interpreted specification terms), and the real object driven for all n=1..255, size pairs and sequences is trace-validated by TLC (Trace_Merkle.tla).",
    note="Symbolic hashing (SHA-512 collisions out of model); interpretation I uses the sha2 crate; node/root widths per profile are calibrated from the implementation because C04 does not fix them (C02 does).",
    technique="TLA+ object spec + TLC; behaviours replayed into MerkleTree; recorded batches validated against Trace_Merkle.tla"),
+ "C05": dict(level="model_checking", ref="6 C05",
+   text="Wire.tla states the reference decoder/encoder on abstracted words and the builder object; TLC enumerates every word sequence up to 4 (quick) / 5 (thorough) words over a 17-word alphabet of interesting values plus builder messages with single/double mutations, checks RoundTrip/Canonical/Exact on the model and emits one test per state; each is replayed into RtMessage::from_bytes/encode/encode_framed/add_field; recorded decodes of seeded API messages (<=64 KiB), header-targeted mutants and random strings are re-decided by TLC (Trace_Wire.tla).",
+   note="TLA+ used as an executable reference for a pure function (DESIGN.md section 2); word abstraction clamps values >= 2^30; the zero-tag message with trailing words counts as accepted.",
+   technique="TLA+ reference codec + TLC small-scope enumeration; one implementation test per state; trace validation of recorded decodes"),
+ "C06": dict(level="model_checking", ref="6 C06",
+   text="Same specification and state space as C05; decides totality (no panic in from_bytes or Display for any enumerated or recorded input, including nested CERT/DELE/SREP values that do not decode) and exactness (values concatenated equal the input after the header).",
+   note="Panics are observed under catch_unwind; stack exhaustion by pathological nesting depth is not explored (quadratic Display cost).",
+   technique="TLA+ reference codec + TLC small-scope enumeration; replay under catch_unwind; trace validation"),
 }
 PENDING_REASON = "check not built yet in this session (see DESIGN.md section 6 for the planned TLA+ treatment)"
 
